@@ -52,7 +52,18 @@ thread_local! {
 
 /// failures after which the interpreter cannot safely go on (it would index out of the arena, or call
 /// into an arena whose free list no longer terminates)
-const FATAL_SIGS: &[&str] = &["range-out-of-arena", "capacity-exceeds-arena", "cursor-range", "above-cursor", "below-data-offset", "walk-incomplete", "ctor-failed", "reopen-failed", "reopen-bytes", "infra"];
+const FATAL_SIGS: &[&str] = &[
+    "range-out-of-arena",
+    "capacity-exceeds-arena",
+    "cursor-range",
+    "above-cursor",
+    "below-data-offset",
+    "walk-incomplete",
+    "ctor-failed",
+    "reopen-failed",
+    "reopen-bytes",
+    "infra",
+];
 
 /// a predicate may belong to several properties ("C01|C13")
 pub fn owns(tag: &str, id: &str) -> bool {
@@ -60,7 +71,9 @@ pub fn owns(tag: &str, id: &str) -> bool {
 }
 
 pub fn soften(v: &Viol) -> bool {
-    let Some(owner) = OWNER.with(|o| o.get()) else { return false };
+    let Some(owner) = OWNER.with(|o| o.get()) else {
+        return false;
+    };
     if owns(v.prop, owner) || FATAL_SIGS.contains(&v.sig.as_str()) {
         return false;
     }
@@ -109,7 +122,11 @@ pub fn guard<T>(what: &str, owner: &'static str, f: impl FnOnce() -> T) -> R<T> 
         Ok(v) => Ok(v),
         Err(p) => {
             if p.is::<BudgetExceeded>() {
-                return Err(viol!("C07", format!("non-termination/{what}"), "{what} did not finish within the step budget"));
+                return Err(viol!(
+                    "C07",
+                    format!("non-termination/{what}"),
+                    "{what} did not finish within the step budget"
+                ));
             }
             let m = if let Some(s) = p.downcast_ref::<&str>() {
                 s.to_string()
@@ -118,7 +135,11 @@ pub fn guard<T>(what: &str, owner: &'static str, f: impl FnOnce() -> T) -> R<T> 
             } else {
                 "non-string panic".to_string()
             };
-            Err(viol!(owner, format!("panic/{what}"), "{what} panicked: {m}"))
+            Err(viol!(
+                owner,
+                format!("panic/{what}"),
+                "{what} panicked: {m}"
+            ))
         }
     }
 }
@@ -307,7 +328,8 @@ pub fn fresh_path() -> PathBuf {
         c.set(v + 1);
         v
     });
-    scratch_dir().join(format!("arena-{:?}-{n}", std::thread::current().id()).replace(['(', ')'], ""))
+    scratch_dir()
+        .join(format!("arena-{:?}-{n}", std::thread::current().id()).replace(['(', ')'], ""))
 }
 
 pub fn page_size() -> usize {
@@ -335,25 +357,56 @@ pub fn either_io(e: either::Either<std::io::Error, std::io::Error>) -> std::io::
 /// `map_copy_read_only` and their path-builder forms): the implementation clears every one of them, so such an
 /// open must behave exactly like one without them. Bit 0 truncate, 1 append, 2 create, 3 create_new, 4 write.
 pub fn ro_flags(o: Options, flags: u8) -> Options {
-    let o = if flags & 16 != 0 { o.with_write(true) } else { o };
-    let o = if flags & 1 != 0 { o.with_truncate(true) } else { o };
-    let o = if flags & 2 != 0 { o.with_append(true) } else { o };
-    let o = if flags & 4 != 0 { o.with_create(true) } else { o };
-    if flags & 8 != 0 { o.with_create_new(true) } else { o }
+    let o = if flags & 16 != 0 {
+        o.with_write(true)
+    } else {
+        o
+    };
+    let o = if flags & 1 != 0 {
+        o.with_truncate(true)
+    } else {
+        o
+    };
+    let o = if flags & 2 != 0 {
+        o.with_append(true)
+    } else {
+        o
+    };
+    let o = if flags & 4 != 0 {
+        o.with_create(true)
+    } else {
+        o
+    };
+    if flags & 8 != 0 {
+        o.with_create_new(true)
+    } else {
+        o
+    }
 }
 
 /// the "some earlier owner dirtied this byte" bookkeeping (C08's non-trivial rule) stops here: giant arenas exist
 pub const DIRTIED_MAX: usize = 1 << 22;
 
 pub const OPEN_NAMES: [&str; 8] = [
-    "map_mut", "map_copy", "map", "map_copy_read_only",
-    "map_mut_with_path_builder", "map_copy_with_path_builder", "map_with_path_builder", "map_copy_read_only_with_path_builder",
+    "map_mut",
+    "map_copy",
+    "map",
+    "map_copy_read_only",
+    "map_mut_with_path_builder",
+    "map_copy_with_path_builder",
+    "map_with_path_builder",
+    "map_copy_read_only_with_path_builder",
 ];
 
 /// One of the eight open variants of an existing file: mode 0 map_mut, 1 map_copy, 2 map, 3 map_copy_read_only;
 /// `pb` selects the `*_with_path_builder` form (the builder itself never fails). Write access is requested for
 /// the writable modes only.
-pub fn open_variant<A: Flavor>(o: Options, mode: u8, pb: bool, path: &std::path::Path) -> std::io::Result<A> {
+pub fn open_variant<A: Flavor>(
+    o: Options,
+    mode: u8,
+    pb: bool,
+    path: &std::path::Path,
+) -> std::io::Result<A> {
     let pp = path.to_path_buf();
     let b = move || Ok::<_, std::io::Error>(pp);
     unsafe {
@@ -362,10 +415,18 @@ pub fn open_variant<A: Flavor>(o: Options, mode: u8, pb: bool, path: &std::path:
             (1, false) => o.with_write(true).map_copy::<A, _>(path),
             (2, false) => o.map::<A, _>(path),
             (_, false) => o.map_copy_read_only::<A, _>(path),
-            (0, true) => o.with_write(true).map_mut_with_path_builder::<A, _, _>(b).map_err(either_io),
-            (1, true) => o.with_write(true).map_copy_with_path_builder::<A, _, _>(b).map_err(either_io),
+            (0, true) => o
+                .with_write(true)
+                .map_mut_with_path_builder::<A, _, _>(b)
+                .map_err(either_io),
+            (1, true) => o
+                .with_write(true)
+                .map_copy_with_path_builder::<A, _, _>(b)
+                .map_err(either_io),
             (2, true) => o.map_with_path_builder::<A, _, _>(b).map_err(either_io),
-            (_, true) => o.map_copy_read_only_with_path_builder::<A, _, _>(b).map_err(either_io),
+            (_, true) => o
+                .map_copy_read_only_with_path_builder::<A, _, _>(b)
+                .map_err(either_io),
         }
     }
 }
@@ -392,13 +453,29 @@ impl<A: Flavor> World<A> {
             })));
         }
         let arena: A = match cfg.backend {
-            Backend::Vec => match guard("alloc(ctor)", "C16", || opts.with_capacity(cap).alloc::<A>())? {
+            Backend::Vec => match guard("alloc(ctor)", "C16", || {
+                opts.with_capacity(cap).alloc::<A>()
+            })? {
                 Ok(a) => a,
-                Err(e) => return Err(viol!("C16", "ctor-failed", "Vec constructor failed with sufficient capacity {cap}: {e}")),
+                Err(e) => {
+                    return Err(viol!(
+                        "C16",
+                        "ctor-failed",
+                        "Vec constructor failed with sufficient capacity {cap}: {e}"
+                    ))
+                }
             },
-            Backend::Anon => match guard("map_anon", "C16", || opts.with_capacity(cap).map_anon::<A>())? {
+            Backend::Anon => match guard("map_anon", "C16", || {
+                opts.with_capacity(cap).map_anon::<A>()
+            })? {
                 Ok(a) => a,
-                Err(e) => return Err(viol!("C16", "ctor-failed", "map_anon failed with sufficient capacity {cap}: {e}")),
+                Err(e) => {
+                    return Err(viol!(
+                        "C16",
+                        "ctor-failed",
+                        "map_anon failed with sufficient capacity {cap}: {e}"
+                    ))
+                }
             },
             Backend::File => {
                 let p = fresh_path();
@@ -408,11 +485,16 @@ impl<A: Flavor> World<A> {
                     .with_read(true)
                     .with_write(true)
                     .with_offset(cfg.off_pages as u64 * page as u64);
-                let o = if cfg.create_new { o.with_create_new(true) } else { o.with_create(true) };
+                let o = if cfg.create_new {
+                    o.with_create_new(true)
+                } else {
+                    o.with_create(true)
+                };
                 let r = guard("map_mut(create)", "C16", || unsafe {
                     if cfg.pb {
                         let pp = p.clone();
-                        o.map_mut_with_path_builder::<A, _, std::io::Error>(move || Ok(pp)).map_err(either_io)
+                        o.map_mut_with_path_builder::<A, _, std::io::Error>(move || Ok(pp))
+                            .map_err(either_io)
                     } else {
                         o.map_mut::<A, _>(&p)
                     }
@@ -420,7 +502,13 @@ impl<A: Flavor> World<A> {
                 path = Some(p);
                 match r {
                     Ok(a) => a,
-                    Err(e) => return Err(viol!("C16", "ctor-failed", "map_mut(create) failed with sufficient capacity {cap}: {e}")),
+                    Err(e) => {
+                        return Err(viol!(
+                            "C16",
+                            "ctor-failed",
+                            "map_mut(create) failed with sufficient capacity {cap}: {e}"
+                        ))
+                    }
                 }
             }
         };
@@ -481,7 +569,22 @@ impl<A: Flavor> World<A> {
         let reserved_expect = arena.reserved_slice().to_vec();
         let hs = live
             .iter()
-            .map(|l| H { obj: None, kind: HKind::Bytes, ty: 0, off: l.off, cap: l.cap, boff: l.off, bcap: l.cap, expect: l.expect.clone(), embeds: 0, via: 0, detached: true, drop_id: None, zst_written: None, id: l.id })
+            .map(|l| H {
+                obj: None,
+                kind: HKind::Bytes,
+                ty: 0,
+                off: l.off,
+                cap: l.cap,
+                boff: l.off,
+                bcap: l.cap,
+                expect: l.expect.clone(),
+                embeds: 0,
+                via: 0,
+                detached: true,
+                drop_id: None,
+                zst_written: None,
+                id: l.id,
+            })
             .collect();
         let mut w = World {
             cfg: cfg.clone(),
@@ -523,7 +626,10 @@ impl<A: Flavor> World<A> {
     }
 
     pub fn first(&self) -> usize {
-        self.arenas.iter().position(|a| a.is_some()).expect("at least one arena value")
+        self.arenas
+            .iter()
+            .position(|a| a.is_some())
+            .expect("at least one arena value")
     }
 
     pub fn a(&self) -> &'static A {
@@ -540,7 +646,10 @@ impl<A: Flavor> World<A> {
         let arena = self.a();
         let d = arena.data_offset();
         for n in [1u32, 8, (self.cfg.reserved.min(64) + 8) as u32] {
-            let r = std::panic::catch_unwind(std::panic::AssertUnwindSafe(|| alloc_bytes(arena, n, false).map(|h| (h.offset(), h.capacity(), std::mem::forget(h)))));
+            let r = std::panic::catch_unwind(std::panic::AssertUnwindSafe(|| {
+                alloc_bytes(arena, n, false)
+                    .map(|h| (h.offset(), h.capacity(), std::mem::forget(h)))
+            }));
             if let Ok(Ok((off, cap, _))) = r {
                 ensure!(cap == 0 || off >= d, "C16", "allocation-in-prefix", "after the failure above alloc_bytes({n}) returned [{off}, {}) in front of data_offset() {d}", off + cap);
             }
@@ -551,7 +660,12 @@ impl<A: Flavor> World<A> {
     }
 
     fn live_arena_ixs(&self) -> Vec<usize> {
-        self.arenas.iter().enumerate().filter(|(_, a)| a.is_some()).map(|(i, _)| i).collect()
+        self.arenas
+            .iter()
+            .enumerate()
+            .filter(|(_, a)| a.is_some())
+            .map(|(i, _)| i)
+            .collect()
     }
 
     pub fn snap(&self) -> Snap {
@@ -607,6 +721,24 @@ impl<A: Flavor> World<A> {
         self.mem().to_vec()
     }
 
+    /// What a kill at this operation boundary leaves behind. For a file-backed writable arena that is the file as the
+    /// page cache holds it - read through the file system, not through the arena's own view of its memory (the two are
+    /// the same bytes for a shared mapping, which is exactly what is being checked); otherwise memory().
+    pub fn crash_bytes(&mut self) -> Vec<u8> {
+        let cap = self.a().capacity();
+        match (&self.path, self.cow.is_some() || self.ro) {
+            (Some(p), false) => {
+                let off = self.cfg.off_pages as usize * self.page;
+                let f = std::fs::read(p).unwrap_or_default();
+                self.classes.insert("crash-snapshot-read-from-file");
+                f.get(off..)
+                    .map(|b| b[..b.len().min(cap)].to_vec())
+                    .unwrap_or_default()
+            }
+            _ => self.mem().to_vec(),
+        }
+    }
+
     pub fn mem(&self) -> &'static [u8] {
         let a = self.a();
         unsafe { std::slice::from_raw_parts(a.raw_ptr(), a.capacity()) }
@@ -620,22 +752,54 @@ impl<A: Flavor> World<A> {
         // C16: remaining law, reserved prefix
         ensure!(
             post.remaining == post.capacity.saturating_sub(post.allocated),
-            "C16", "remaining-law",
-            "remaining()={} but capacity()-allocated()={}-{}", post.remaining, post.capacity, post.allocated
+            "C16",
+            "remaining-law",
+            "remaining()={} but capacity()-allocated()={}-{}",
+            post.remaining,
+            post.capacity,
+            post.allocated
         );
         // C20: monotone (clear and the roll-back of a copy-on-write session reset the baseline themselves)
-        ensure!(post.discarded >= self.last_discarded, "C20", "discarded-decreased", "discarded() went from {} to {} (op {})", self.last_discarded, post.discarded, self.opno);
+        ensure!(
+            post.discarded >= self.last_discarded,
+            "C20",
+            "discarded-decreased",
+            "discarded() went from {} to {} (op {})",
+            self.last_discarded,
+            post.discarded,
+            self.opno
+        );
         self.last_discarded = post.discarded;
         let rs = a.reserved_slice();
-        ensure!(rs.len() == self.cfg.reserved as usize, "C16", "reserved-len", "reserved_slice().len()={} configured {}", rs.len(), self.cfg.reserved);
-        ensure!(rs == &self.reserved_expect[..], "C16", "reserved-written", "reserved prefix was modified by an arena operation");
+        ensure!(
+            rs.len() == self.cfg.reserved as usize,
+            "C16",
+            "reserved-len",
+            "reserved_slice().len()={} configured {}",
+            rs.len(),
+            self.cfg.reserved
+        );
+        ensure!(
+            rs == &self.reserved_expect[..],
+            "C16",
+            "reserved-written",
+            "reserved prefix was modified by an arena operation"
+        );
         // C16: the descriptive accessors of every live arena value (clones included) report the mode and options
         // the arena was created / opened with, whatever has happened since
         for ix in self.live_arena_ixs() {
             self.check_accessors(self.aref(ix), ix, post)?;
         }
         // cursor in range (C01 relies on it)
-        ensure!(post.allocated >= d && post.allocated <= post.capacity, "C01", "cursor-range", "allocated()={} outside [data_offset={}, capacity={}]", post.allocated, d, post.capacity);
+        ensure!(
+            post.allocated >= d && post.allocated <= post.capacity,
+            "C01",
+            "cursor-range",
+            "allocated()={} outside [data_offset={}, capacity={}]",
+            post.allocated,
+            d,
+            post.capacity
+        );
         if post.allocated > self.high_water {
             self.high_water = post.allocated;
         }
@@ -646,16 +810,31 @@ impl<A: Flavor> World<A> {
             if h.cap == 0 {
                 continue;
             }
-            ensure!(h.off >= d, "C01", "below-data-offset", "handle #{i} range [{}, {}) starts below data_offset {d}", h.off, h.off + h.cap);
+            ensure!(
+                h.off >= d,
+                "C01",
+                "below-data-offset",
+                "handle #{i} range [{}, {}) starts below data_offset {d}",
+                h.off,
+                h.off + h.cap
+            );
             ensure!(
                 h.off + h.cap <= post.allocated,
-                "C01", "above-cursor",
-                "handle #{i} range [{}, {}) extends above allocated()={}", h.off, h.off + h.cap, post.allocated
+                "C01",
+                "above-cursor",
+                "handle #{i} range [{}, {}) extends above allocated()={}",
+                h.off,
+                h.off + h.cap,
+                post.allocated
             );
             ensure!(
                 mem[h.off..h.off + h.cap] == h.expect[..],
-                "C01", "bytes-changed",
-                "bytes of live handle #{i} [{}, {}) changed without a write through it (op {})", h.off, h.off + h.cap, self.opno
+                "C01",
+                "bytes-changed",
+                "bytes of live handle #{i} [{}, {}) changed without a write through it (op {})",
+                h.off,
+                h.off + h.cap,
+                self.opno
             );
             rs.push((h.off, h.off + h.cap, i));
         }
@@ -663,8 +842,15 @@ impl<A: Flavor> World<A> {
         for w in rs.windows(2) {
             ensure!(
                 w[0].1 <= w[1].0,
-                "C01", "overlap",
-                "live handles #{} [{}, {}) and #{} [{}, {}) overlap", w[0].2, w[0].0, w[0].1, w[1].2, w[1].0, w[1].1
+                "C01",
+                "overlap",
+                "live handles #{} [{}, {}) and #{} [{}, {}) overlap",
+                w[0].2,
+                w[0].0,
+                w[0].1,
+                w[1].2,
+                w[1].0,
+                w[1].1
             );
         }
         // C10: well-formed free list
@@ -680,20 +866,89 @@ impl<A: Flavor> World<A> {
         let cfg = &self.cfg;
         let file = self.path.is_some();
         let want_d = expected_data_offset::<A>(cfg);
-        ensure!(a.data_offset() == want_d, "C16", "data-offset", "arena value #{ix}: data_offset()={} but Options says {want_d} (op {})", a.data_offset(), self.opno);
-        ensure!(a.unify() == (cfg.unify || file), "C16", "acc-unify", "arena value #{ix}: unify()={} configured {} file-backed {file}", a.unify(), cfg.unify);
-        ensure!(a.read_only() == self.ro, "C16", "acc-read-only", "arena value #{ix}: read_only()={} opened read-only {}", a.read_only(), self.ro);
-        ensure!(a.is_map() == (cfg.backend != Backend::Vec), "C16", "acc-is-map", "arena value #{ix}: is_map()={} for {:?}", a.is_map(), cfg.backend);
-        ensure!(a.is_ondisk() == file && a.is_inmemory() == !file, "C16", "acc-ondisk", "arena value #{ix}: is_ondisk()={} is_inmemory()={} for {:?}", a.is_ondisk(), a.is_inmemory(), cfg.backend);
+        ensure!(
+            a.data_offset() == want_d,
+            "C16",
+            "data-offset",
+            "arena value #{ix}: data_offset()={} but Options says {want_d} (op {})",
+            a.data_offset(),
+            self.opno
+        );
+        ensure!(
+            a.unify() == (cfg.unify || file),
+            "C16",
+            "acc-unify",
+            "arena value #{ix}: unify()={} configured {} file-backed {file}",
+            a.unify(),
+            cfg.unify
+        );
+        ensure!(
+            a.read_only() == self.ro,
+            "C16",
+            "acc-read-only",
+            "arena value #{ix}: read_only()={} opened read-only {}",
+            a.read_only(),
+            self.ro
+        );
+        ensure!(
+            a.is_map() == (cfg.backend != Backend::Vec),
+            "C16",
+            "acc-is-map",
+            "arena value #{ix}: is_map()={} for {:?}",
+            a.is_map(),
+            cfg.backend
+        );
+        ensure!(
+            a.is_ondisk() == file && a.is_inmemory() == !file,
+            "C16",
+            "acc-ondisk",
+            "arena value #{ix}: is_ondisk()={} is_inmemory()={} for {:?}",
+            a.is_ondisk(),
+            a.is_inmemory(),
+            cfg.backend
+        );
         ensure!(
             a.is_map_anon() == (cfg.backend == Backend::Anon) && a.is_map_file() == file,
-            "C16", "acc-map-kind",
-            "arena value #{ix}: is_map_anon()={} is_map_file()={} for {:?}", a.is_map_anon(), a.is_map_file(), cfg.backend
+            "C16",
+            "acc-map-kind",
+            "arena value #{ix}: is_map_anon()={} is_map_file()={} for {:?}",
+            a.is_map_anon(),
+            a.is_map_file(),
+            cfg.backend
         );
-        ensure!(a.magic_version() == cfg.magic && a.version() == 0, "C16", "acc-magic", "arena value #{ix}: magic_version()={} version()={} configured {}", a.magic_version(), a.version(), cfg.magic);
-        ensure!(a.page_size() == self.page, "C16", "acc-page-size", "arena value #{ix}: page_size()={} sysconf {}", a.page_size(), self.page);
-        ensure!(a.reserved_bytes() == cfg.reserved as usize, "C16", "acc-reserved-bytes", "arena value #{ix}: reserved_bytes()={} configured {}", a.reserved_bytes(), cfg.reserved);
-        ensure!(a.path().is_some() == file, "C16", "acc-path", "arena value #{ix}: path() is {} for a {} arena", if a.path().is_some() { "Some" } else { "None" }, if file { "file-backed" } else { "in-memory" });
+        ensure!(
+            a.magic_version() == cfg.magic && a.version() == 0,
+            "C16",
+            "acc-magic",
+            "arena value #{ix}: magic_version()={} version()={} configured {}",
+            a.magic_version(),
+            a.version(),
+            cfg.magic
+        );
+        ensure!(
+            a.page_size() == self.page,
+            "C16",
+            "acc-page-size",
+            "arena value #{ix}: page_size()={} sysconf {}",
+            a.page_size(),
+            self.page
+        );
+        ensure!(
+            a.reserved_bytes() == cfg.reserved as usize,
+            "C16",
+            "acc-reserved-bytes",
+            "arena value #{ix}: reserved_bytes()={} configured {}",
+            a.reserved_bytes(),
+            cfg.reserved
+        );
+        ensure!(
+            a.path().is_some() == file,
+            "C16",
+            "acc-path",
+            "arena value #{ix}: path() is {} for a {} arena",
+            if a.path().is_some() { "Some" } else { "None" },
+            if file { "file-backed" } else { "in-memory" }
+        );
         // every value of one arena describes the same arena
         ensure!(
             a.capacity() == post.capacity && a.allocated() == post.allocated && a.remaining() == post.remaining && a.minimum_segment_size() == post.minseg,
@@ -708,40 +963,91 @@ impl<A: Flavor> World<A> {
         let d = self.a().data_offset();
         ensure!(post.fl_complete, "C10", "walk-incomplete", "free-list walk did not terminate cleanly (cycle, misaligned or out-of-range offset): {:?}", post.fl);
         if self.freelist == 0 {
-            ensure!(post.fl.is_empty(), "C10", "none-has-nodes", "Freelist::None arena has free-list nodes {:?}", post.fl);
+            ensure!(
+                post.fl.is_empty(),
+                "C10",
+                "none-has-nodes",
+                "Freelist::None arena has free-list nodes {:?}",
+                post.fl
+            );
         }
         let mut ext: Vec<(usize, usize)> = Vec::with_capacity(post.fl.len());
         for (k, &(off, size, _)) in post.fl.iter().enumerate() {
             let (off, size) = (off as usize, size as usize);
-            ensure!(off % 8 == 0, "C10", "node-misaligned", "node {k} at {off} not 8-aligned");
-            ensure!(off >= d, "C10", "node-below-data", "node {k} at {off} below data_offset {d}");
-            ensure!(size != 0, "C10", "node-size-zero", "node {k} at {off} has size field 0 at a quiescent point");
+            ensure!(
+                off % 8 == 0,
+                "C10",
+                "node-misaligned",
+                "node {k} at {off} not 8-aligned"
+            );
+            ensure!(
+                off >= d,
+                "C10",
+                "node-below-data",
+                "node {k} at {off} below data_offset {d}"
+            );
+            ensure!(
+                size != 0,
+                "C10",
+                "node-size-zero",
+                "node {k} at {off} has size field 0 at a quiescent point"
+            );
             ensure!(
                 off + 8 + size <= self.high_water.max(post.allocated),
-                "C10", "node-above-cursor",
-                "node {k} extent [{off}, {}) above the highest cursor {}", off + 8 + size, self.high_water.max(post.allocated)
+                "C10",
+                "node-above-cursor",
+                "node {k} extent [{off}, {}) above the highest cursor {}",
+                off + 8 + size,
+                self.high_water.max(post.allocated)
             );
             ext.push((off, off + 8 + size));
         }
         for k in 1..post.fl.len() {
             let (p, c) = (post.fl[k - 1].1, post.fl[k].1);
             if self.freelist == 1 {
-                ensure!(p >= c, "C10", "order-desc", "Optimistic list not descending: {:?}", post.fl);
+                ensure!(
+                    p >= c,
+                    "C10",
+                    "order-desc",
+                    "Optimistic list not descending: {:?}",
+                    post.fl
+                );
             } else {
-                ensure!(p <= c, "C10", "order-asc", "Pessimistic list not ascending: {:?}", post.fl);
+                ensure!(
+                    p <= c,
+                    "C10",
+                    "order-asc",
+                    "Pessimistic list not ascending: {:?}",
+                    post.fl
+                );
             }
         }
         let mut s = ext.clone();
         s.sort();
         for w in s.windows(2) {
-            ensure!(w[0].1 <= w[1].0, "C10", "nodes-overlap", "free segments [{}, {}) and [{}, {}) overlap", w[0].0, w[0].1, w[1].0, w[1].1);
+            ensure!(
+                w[0].1 <= w[1].0,
+                "C10",
+                "nodes-overlap",
+                "free segments [{}, {}) and [{}, {}) overlap",
+                w[0].0,
+                w[0].1,
+                w[1].0,
+                w[1].1
+            );
         }
         for e in &ext {
             for l in live {
                 ensure!(
                     !overlaps(*e, (l.0, l.1)),
-                    "C10", "node-overlaps-live",
-                    "free segment [{}, {}) overlaps live handle #{} [{}, {})", e.0, e.1, l.2, l.0, l.1
+                    "C10",
+                    "node-overlaps-live",
+                    "free segment [{}, {}) overlaps live handle #{} [{}, {})",
+                    e.0,
+                    e.1,
+                    l.2,
+                    l.0,
+                    l.1
                 );
             }
         }
@@ -751,7 +1057,16 @@ impl<A: Flavor> World<A> {
     // ---------------------------------------------------------------- steps
 
     fn live_recs(&self) -> Vec<LiveRec> {
-        self.hs.iter().filter(|h| h.cap > 0).map(|h| LiveRec { id: h.id, off: h.off, cap: h.cap, expect: h.expect.clone() }).collect()
+        self.hs
+            .iter()
+            .filter(|h| h.cap > 0)
+            .map(|h| LiveRec {
+                id: h.id,
+                off: h.off,
+                cap: h.cap,
+                expect: h.expect.clone(),
+            })
+            .collect()
     }
 
     /// (Re)installs the thread hook this world needs: crash-point recorder, step budget, unmount counter.
@@ -763,7 +1078,15 @@ impl<A: Flavor> World<A> {
         let sh = match &self.crash {
             Some(s) => s.clone(),
             None => {
-                let s = Rc::new(CrashShared { ptr: Cell::new(a.raw_ptr()), cap: Cell::new(a.capacity()), cur_op: Cell::new(0), step: Cell::new(0), enabled: Cell::new(false), snaps: Default::default(), budget_used: Cell::new(0) });
+                let s = Rc::new(CrashShared {
+                    ptr: Cell::new(a.raw_ptr()),
+                    cap: Cell::new(a.capacity()),
+                    cur_op: Cell::new(0),
+                    step: Cell::new(0),
+                    enabled: Cell::new(false),
+                    snaps: Default::default(),
+                    budget_used: Cell::new(0),
+                });
                 self.crash = Some(s.clone());
                 s
             }
@@ -800,8 +1123,14 @@ impl<A: Flavor> World<A> {
             if record {
                 let st = sh.step.get() + 1;
                 sh.step.set(st);
-                let bytes = unsafe { std::slice::from_raw_parts(sh.ptr.get(), sh.cap.get()) }.to_vec();
-                sh.snaps.borrow_mut().push(CrashSnap { op: sh.cur_op.get(), step: st, what: format!("{:?}", e.kind), bytes });
+                let bytes =
+                    unsafe { std::slice::from_raw_parts(sh.ptr.get(), sh.cap.get()) }.to_vec();
+                sh.snaps.borrow_mut().push(CrashSnap {
+                    op: sh.cur_op.get(),
+                    step: st,
+                    what: format!("{:?}", e.kind),
+                    bytes,
+                });
             }
             verif::Action::Proceed
         })));
@@ -823,8 +1152,13 @@ impl<A: Flavor> World<A> {
                 let a = self.a();
                 sh.ptr.set(a.raw_ptr());
                 sh.cap.set(a.capacity());
-                let bytes = self.mem().to_vec();
-                sh.snaps.borrow_mut().push(CrashSnap { op: ix, step: u32::MAX, what: "end-of-op".into(), bytes });
+                let bytes = self.crash_bytes();
+                sh.snaps.borrow_mut().push(CrashSnap {
+                    op: ix,
+                    step: u32::MAX,
+                    what: "end-of-op".into(),
+                    bytes,
+                });
             }
             return Ok(());
         }
@@ -858,7 +1192,13 @@ impl<A: Flavor> World<A> {
                 }
             }
             Op::Write { h } => {
-                let cands: Vec<usize> = self.hs.iter().enumerate().filter(|(_, h)| h.obj.is_some() && h.cap > 0).map(|(i, _)| i).collect();
+                let cands: Vec<usize> = self
+                    .hs
+                    .iter()
+                    .enumerate()
+                    .filter(|(_, h)| h.obj.is_some() && h.cap > 0)
+                    .map(|(i, _)| i)
+                    .collect();
                 if !cands.is_empty() && !self.ro {
                     let i = cands[pick(*h, cands.len())];
                     let id = self.fresh_id();
@@ -867,7 +1207,13 @@ impl<A: Flavor> World<A> {
                 }
             }
             Op::Drop { h } => {
-                let cands: Vec<usize> = self.hs.iter().enumerate().filter(|(_, h)| h.obj.is_some()).map(|(i, _)| i).collect();
+                let cands: Vec<usize> = self
+                    .hs
+                    .iter()
+                    .enumerate()
+                    .filter(|(_, h)| h.obj.is_some())
+                    .map(|(i, _)| i)
+                    .collect();
                 if !cands.is_empty() && !self.ro {
                     let i = cands[pick(*h, cands.len())];
                     self.do_drop(i)?;
@@ -875,7 +1221,13 @@ impl<A: Flavor> World<A> {
                 }
             }
             Op::Detach { h } => {
-                let cands: Vec<usize> = self.hs.iter().enumerate().filter(|(_, h)| h.obj.is_some() && !h.detached).map(|(i, _)| i).collect();
+                let cands: Vec<usize> = self
+                    .hs
+                    .iter()
+                    .enumerate()
+                    .filter(|(_, h)| h.obj.is_some() && !h.detached)
+                    .map(|(i, _)| i)
+                    .collect();
                 if !cands.is_empty() {
                     let i = cands[pick(*h, cands.len())];
                     let hh = &mut self.hs[i];
@@ -886,7 +1238,13 @@ impl<A: Flavor> World<A> {
                 }
             }
             Op::DeallocDetached { h } => {
-                let cands: Vec<usize> = self.hs.iter().enumerate().filter(|(_, h)| h.detached).map(|(i, _)| i).collect();
+                let cands: Vec<usize> = self
+                    .hs
+                    .iter()
+                    .enumerate()
+                    .filter(|(_, h)| h.detached)
+                    .map(|(i, _)| i)
+                    .collect();
                 if !cands.is_empty() && !self.ro {
                     let i = cands[pick(*h, cands.len())];
                     self.do_dealloc_detached(i)?;
@@ -899,7 +1257,9 @@ impl<A: Flavor> World<A> {
                     let (boff, bcap) = (hh.boff, hh.bcap);
                     let pre = self.snap();
                     let a = self.a();
-                    guard("dealloc(read-only arena)", "C09", || unsafe { a.dealloc(boff as u32, bcap as u32) })?;
+                    guard("dealloc(read-only arena)", "C09", || unsafe {
+                        a.dealloc(boff as u32, bcap as u32)
+                    })?;
                     let post = self.snap();
                     ensure!(pre == post, "C09", "ro-dealloc-changed", "dealloc({boff}, {bcap}) on a read-only arena changed it: {pre:?} -> {post:?}");
                     self.classes.insert("dealloc-on-read-only");
@@ -912,7 +1272,14 @@ impl<A: Flavor> World<A> {
                     let c = guard("Arena::clone", "C13", || self.a().clone())?;
                     self.arenas.push(Some(Box::new(c)));
                     let post = self.snap();
-                    ensure!(post.refs == pre.refs + 1, "C13", "refs-clone", "refs() {} -> {} after clone", pre.refs, post.refs);
+                    ensure!(
+                        post.refs == pre.refs + 1,
+                        "C13",
+                        "refs-clone",
+                        "refs() {} -> {} after clone",
+                        pre.refs,
+                        post.refs
+                    );
                     self.classes.insert("clone");
                     res = "ok".into();
                 }
@@ -922,7 +1289,12 @@ impl<A: Flavor> World<A> {
                 let cands: Vec<usize> = live
                     .iter()
                     .copied()
-                    .filter(|ix| !self.hs.iter().any(|h| h.obj.is_some() && h.embeds == 0 && h.via == *ix))
+                    .filter(|ix| {
+                        !self
+                            .hs
+                            .iter()
+                            .any(|h| h.obj.is_some() && h.embeds == 0 && h.via == *ix)
+                    })
                     .collect();
                 if live.len() >= 2 && !cands.is_empty() {
                     let ix = cands[pick(*a, cands.len())];
@@ -930,7 +1302,14 @@ impl<A: Flavor> World<A> {
                     let b = self.arenas[ix].take().unwrap();
                     guard("Arena::drop", "C13", move || drop(b))?;
                     let post = self.snap();
-                    ensure!(post.refs + 1 == pre.refs, "C13", "refs-drop", "refs() {} -> {} after dropping an arena value", pre.refs, post.refs);
+                    ensure!(
+                        post.refs + 1 == pre.refs,
+                        "C13",
+                        "refs-drop",
+                        "refs() {} -> {} after dropping an arena value",
+                        pre.refs,
+                        post.refs
+                    );
                     self.check_unmounts("drop of a non-last arena value")?;
                     if ix == 0 {
                         self.classes.insert("drop-original-first");
@@ -944,7 +1323,9 @@ impl<A: Flavor> World<A> {
             Op::SetMinSeg { v } => {
                 if !self.ro {
                     let pre = self.snap();
-                    guard("set_minimum_segment_size", "C11", || self.a().set_minimum_segment_size(*v))?;
+                    guard("set_minimum_segment_size", "C11", || {
+                        self.a().set_minimum_segment_size(*v)
+                    })?;
                     let post = self.snap();
                     let mut e = pre.clone();
                     e.minseg = *v;
@@ -956,7 +1337,9 @@ impl<A: Flavor> World<A> {
                 if !self.ro {
                     let pre = self.snap();
                     self.inc_total = self.inc_total.saturating_add(*v as u64);
-                    guard("increase_discarded", "C20", || self.a().increase_discarded(*v))?;
+                    guard("increase_discarded", "C20", || {
+                        self.a().increase_discarded(*v)
+                    })?;
                     let post = self.snap();
                     let sum = pre.discarded as u64 + *v as u64;
                     if sum <= u32::MAX as u64 {
@@ -998,7 +1381,7 @@ impl<A: Flavor> World<A> {
                 let a = self.a();
                 let pre = self.snap();
                 let (al, d) = (a.allocated(), a.data_offset());
-                let which = ix % 7;
+                let which = if ix % 16 == 15 { 7 } else { ix % 7 };
                 let r = guard("flush*", "C05", || match which {
                     0 => a.flush(),
                     1 => a.flush_async(),
@@ -1006,14 +1389,32 @@ impl<A: Flavor> World<A> {
                     3 => a.flush_async_range(d.min(al), al - d.min(al)),
                     4 => a.flush_header(),
                     5 => a.flush_async_header(),
-                    _ => a.flush_header_and_range(d.min(al), al - d.min(al)),
+                    6 => a.flush_header_and_range(d.min(al), al - d.min(al)),
+                    _ => a.flush_async_header_and_range(d.min(al), al - d.min(al)),
                 })?;
-                ensure!(r.is_ok(), "C05", "flush-failed", "flush variant {which} failed: {:?}", r);
+                ensure!(
+                    r.is_ok(),
+                    "C05",
+                    "flush-failed",
+                    "flush variant {which} failed: {:?}",
+                    r
+                );
                 let post = self.snap();
-                ensure!(pre == post, "C05", "flush-side-effect", "flush variant {which} changed state {pre:?} -> {post:?}");
+                ensure!(
+                    pre == post,
+                    "C05",
+                    "flush-side-effect",
+                    "flush variant {which} changed state {pre:?} -> {post:?}"
+                );
                 res = "ok".into();
             }
-            Op::Reopen { mode, cap, create, pb, flags } => {
+            Op::Reopen {
+                mode,
+                cap,
+                create,
+                pb,
+                flags,
+            } => {
                 // a file marked remove-on-drop disappears when it is closed: there is nothing to reopen
                 if self.cfg.backend == Backend::File && !self.remove_on_drop {
                     self.do_reopen(*mode, *cap, *create, *pb, *flags)?;
@@ -1024,8 +1425,18 @@ impl<A: Flavor> World<A> {
         let post = self.snap();
         self.check_invariants(&post)?;
         if self.mode.trace {
-            let memhash = if self.mode.memhash { crate::runner::fnv(&self.mem_comparable()) } else { 0 };
-            self.trace.push(Obs { op: ix, res, range, snap: post, memhash });
+            let memhash = if self.mode.memhash {
+                crate::runner::fnv(&self.mem_comparable())
+            } else {
+                0
+            };
+            self.trace.push(Obs {
+                op: ix,
+                res,
+                range,
+                snap: post,
+                memhash,
+            });
         }
         Ok(())
     }
@@ -1054,7 +1465,15 @@ impl<A: Flavor> World<A> {
     }
 
     #[allow(clippy::too_many_arguments)]
-    fn do_alloc(&mut self, kind: HKind, ty: usize, n: u32, owned: bool, via: u16, pre: Snap) -> R<(String, Option<(usize, usize, usize, usize)>)> {
+    fn do_alloc(
+        &mut self,
+        kind: HKind,
+        ty: usize,
+        n: u32,
+        owned: bool,
+        via: u16,
+        pre: Snap,
+    ) -> R<(String, Option<(usize, usize, usize, usize)>)> {
         let live = self.live_arena_ixs();
         let via = live[pick(via, live.len())];
         let arena = self.aref(via);
@@ -1102,21 +1521,43 @@ impl<A: Flavor> World<A> {
         let (need_min, need_max): (u64, u64) = match kind {
             HKind::Bytes => (n as u64, n as u64),
             HKind::Aligned if plain_zst => (n as u64, n as u64),
-            HKind::Aligned => (tsize as u64 + n as u64, tsize as u64 + talign as u64 - 1 + n as u64),
+            HKind::Aligned => (
+                tsize as u64 + n as u64,
+                tsize as u64 + talign as u64 - 1 + n as u64,
+            ),
             HKind::Typed => (tsize as u64, tsize as u64 + talign as u64 - 1),
         };
         let res = res_kind(&r).to_string();
         match r {
             Err(e) => {
                 if self.ro {
-                    ensure!(matches!(e, Error::ReadOnly), "C04", "ro-error-kind", "{what} on a read-only arena returned {e:?}");
+                    ensure!(
+                        matches!(e, Error::ReadOnly),
+                        "C04",
+                        "ro-error-kind",
+                        "{what} on a read-only arena returned {e:?}"
+                    );
                 } else {
-                    ensure!(matches!(e, Error::InsufficientSpace { .. }), "C04", "error-kind", "{what} failed with {e:?}");
-                    ensure!(!zero, "C03", "zero-size-refused", "zero-sized {what} request refused on a writable arena: {e:?}");
+                    ensure!(
+                        matches!(e, Error::InsufficientSpace { .. }),
+                        "C04",
+                        "error-kind",
+                        "{what} failed with {e:?}"
+                    );
+                    ensure!(
+                        !zero,
+                        "C03",
+                        "zero-size-refused",
+                        "zero-sized {what} request refused on a writable arena: {e:?}"
+                    );
                 }
                 ensure!(
-                    pre.allocated == post.allocated && pre.discarded == post.discarded && pre.remaining == post.remaining && pre.fl == post.fl,
-                    "C04", "failed-call-changed-state",
+                    pre.allocated == post.allocated
+                        && pre.discarded == post.discarded
+                        && pre.remaining == post.remaining
+                        && pre.fl == post.fl,
+                    "C04",
+                    "failed-call-changed-state",
                     "{what}({n}) failed ({e:?}) but changed state: {pre:?} -> {post:?}"
                 );
                 if !self.ro && !zero {
@@ -1135,11 +1576,33 @@ impl<A: Flavor> World<A> {
             Ok(obj) => {
                 let mut guard_obj = NoDrop(Some(obj));
                 let obj = guard_obj.0.as_mut().unwrap();
-                let (off, cap, boff, bcap) = (obj.offset(), obj.capacity(), obj.buffer_offset(), obj.buffer_capacity());
-                ensure!(!self.ro || zero, "C04", "ro-alloc-succeeded", "{what} succeeded on a read-only arena");
+                let (off, cap, boff, bcap) = (
+                    obj.offset(),
+                    obj.capacity(),
+                    obj.buffer_offset(),
+                    obj.buffer_capacity(),
+                );
+                ensure!(
+                    !self.ro || zero,
+                    "C04",
+                    "ro-alloc-succeeded",
+                    "{what} succeeded on a read-only arena"
+                );
                 if zero {
-                    ensure!(cap == 0, "C03", "zero-size-capacity", "zero-sized {what} returned capacity {cap}");
-                    ensure!(post.allocated == pre.allocated, "C03", "zero-size-consumed", "zero-sized {what} moved allocated() {} -> {}", pre.allocated, post.allocated);
+                    ensure!(
+                        cap == 0,
+                        "C03",
+                        "zero-size-capacity",
+                        "zero-sized {what} returned capacity {cap}"
+                    );
+                    ensure!(
+                        post.allocated == pre.allocated,
+                        "C03",
+                        "zero-size-consumed",
+                        "zero-sized {what} moved allocated() {} -> {}",
+                        pre.allocated,
+                        post.allocated
+                    );
                     if pre.remaining == 0 {
                         self.classes.insert("zero-size-on-full");
                     }
@@ -1155,7 +1618,12 @@ impl<A: Flavor> World<A> {
                         let b = zst_drops();
                         guard("write(zero-size drop value)", "C13", || obj.write(0))?;
                         let dw = zst_drops() - b;
-                        ensure!(dw <= 1, "C13", "zst-value-drop-count", "writing one zero-sized drop value ran its destructor {dw} times");
+                        ensure!(
+                            dw <= 1,
+                            "C13",
+                            "zst-value-drop-count",
+                            "writing one zero-sized drop value ran its destructor {dw} times"
+                        );
                         zst_written = Some(dw);
                         self.classes.insert("zst-drop-value-written");
                     }
@@ -1165,20 +1633,46 @@ impl<A: Flavor> World<A> {
                         let post2 = self.snap();
                         let mut pre2 = pre2;
                         pre2.refs -= embeds;
-                        ensure!(pre2 == post2, "C01", "zero-size-drop-effect", "dropping a zero-sized handle changed state {pre2:?} -> {post2:?}");
+                        ensure!(
+                            pre2 == post2,
+                            "C01",
+                            "zero-size-drop-effect",
+                            "dropping a zero-sized handle changed state {pre2:?} -> {post2:?}"
+                        );
                         if let Some(dw) = zst_written {
                             let total = dw + (zst_drops() - b);
                             ensure!(total == 1, "C13", "zst-value-drop-count", "a zero-sized drop value written into alloc::<{}>() (owned={owned}) was dropped {total} times by the time its handle was dropped", t.name);
                         }
                     } else {
                         let id = self.fresh_id();
-                        self.hs.push(H { obj: Some(obj), kind, ty, off: 0, cap: 0, boff: 0, bcap: 0, expect: vec![], embeds, via, detached: false, drop_id: None, zst_written, id });
+                        self.hs.push(H {
+                            obj: Some(obj),
+                            kind,
+                            ty,
+                            off: 0,
+                            cap: 0,
+                            boff: 0,
+                            bcap: 0,
+                            expect: vec![],
+                            embeds,
+                            via,
+                            detached: false,
+                            drop_id: None,
+                            zst_written,
+                            id,
+                        });
                     }
                     return Ok((res, Some((off, cap, boff, bcap))));
                 }
                 // an owned handle whose extent is already free again at return is also C13's business (the borrowed
                 // handle inside to_owned released it): such failures carry both tags
-                let wrap_prop = if huge { "C04" } else if owned { "C01|C13" } else { "C01" };
+                let wrap_prop = if huge {
+                    "C04"
+                } else if owned {
+                    "C01|C13"
+                } else {
+                    "C01"
+                };
                 // C04 / C01: inside the arena, arithmetic did not wrap
                 ensure!(
                     off >= d && (off as u64 + cap as u64) <= post.allocated as u64 && post.allocated <= post.capacity,
@@ -1187,24 +1681,56 @@ impl<A: Flavor> World<A> {
                 );
                 ensure!(
                     cap as u64 <= pre.capacity as u64,
-                    wrap_prop, "capacity-exceeds-arena",
-                    "{what}({n}) returned capacity {cap} larger than the arena ({})", pre.capacity
+                    wrap_prop,
+                    "capacity-exceeds-arena",
+                    "{what}({n}) returned capacity {cap} larger than the arena ({})",
+                    pre.capacity
                 );
                 // C03: capacity and alignment (C04 as well for a huge request: "a handle satisfying C01/C03, or an error")
                 let c03: &'static str = if huge { "C03|C04" } else { "C03" };
                 match kind {
-                    HKind::Bytes => ensure!(cap == n as usize, c03, "bytes-capacity", "alloc_bytes({n}) returned capacity {cap}"),
+                    HKind::Bytes => ensure!(
+                        cap == n as usize,
+                        c03,
+                        "bytes-capacity",
+                        "alloc_bytes({n}) returned capacity {cap}"
+                    ),
                     HKind::Aligned => {
                         // also for zero-sized T with an alignment: the statement quantifies over sizes 0..=64
                         ensure!(off % talign == 0, c03, "aligned-offset", "alloc_aligned_bytes::<{}>({n}) offset {off} not a multiple of {talign}", t.name);
-                        ensure!(cap as u64 >= tsize as u64 + n as u64, c03, "aligned-capacity", "alloc_aligned_bytes::<{}>({n}) capacity {cap} < {}", t.name, tsize as u64 + n as u64);
+                        ensure!(
+                            cap as u64 >= tsize as u64 + n as u64,
+                            c03,
+                            "aligned-capacity",
+                            "alloc_aligned_bytes::<{}>({n}) capacity {cap} < {}",
+                            t.name,
+                            tsize as u64 + n as u64
+                        );
                     }
                     HKind::Typed => {
-                        ensure!(cap == tsize, "C03", "typed-capacity", "alloc::<{}>() capacity {cap} != size_of {tsize}", t.name);
-                        ensure!(off % talign == 0, "C03", "typed-offset", "alloc::<{}>() offset {off} not a multiple of {talign}", t.name);
+                        ensure!(
+                            cap == tsize,
+                            "C03",
+                            "typed-capacity",
+                            "alloc::<{}>() capacity {cap} != size_of {tsize}",
+                            t.name
+                        );
+                        ensure!(
+                            off % talign == 0,
+                            "C03",
+                            "typed-offset",
+                            "alloc::<{}>() offset {off} not a multiple of {talign}",
+                            t.name
+                        );
                         if talign <= self.cfg.max_align as usize {
                             let addr = obj.addr();
-                            ensure!(addr % talign == 0, "C03", "typed-address", "alloc::<{}>() pointer {addr:#x} not aligned to {talign}", t.name);
+                            ensure!(
+                                addr % talign == 0,
+                                "C03",
+                                "typed-address",
+                                "alloc::<{}>() pointer {addr:#x} not aligned to {talign}",
+                                t.name
+                            );
                             let raw = arena.raw_ptr() as usize + off;
                             ensure!(raw % talign == 0, "C03", "typed-address", "alloc::<{}>() arena address {raw:#x} (offset {off}) not aligned to {talign}", t.name);
                         }
@@ -1216,16 +1742,26 @@ impl<A: Flavor> World<A> {
                     if h.cap > 0 {
                         ensure!(
                             !overlaps(rng, (h.off, h.off + h.cap)),
-                            wrap_prop, "overlap",
-                            "{what}({n}) returned [{}, {}) overlapping live handle #{i} [{}, {})", rng.0, rng.1, h.off, h.off + h.cap
+                            wrap_prop,
+                            "overlap",
+                            "{what}({n}) returned [{}, {}) overlapping live handle #{i} [{}, {})",
+                            rng.0,
+                            rng.1,
+                            h.off,
+                            h.off + h.cap
                         );
                     }
                 }
                 for dr in &self.dead {
                     ensure!(
                         !overlaps(rng, *dr),
-                        "C20", "discarded-range-reused",
-                        "{what}({n}) returned [{}, {}) reusing discarded range [{}, {})", rng.0, rng.1, dr.0, dr.1
+                        "C20",
+                        "discarded-range-reused",
+                        "{what}({n}) returned [{}, {}) reusing discarded range [{}, {})",
+                        rng.0,
+                        rng.1,
+                        dr.0,
+                        dr.1
                     );
                 }
                 let recycled = boff < pre.allocated;
@@ -1271,12 +1807,30 @@ impl<A: Flavor> World<A> {
                 let embeds = post.refs - pre.refs.min(post.refs);
                 ensure!(
                     post.refs >= pre.refs && embeds == usize::from(owned),
-                    "C13", "refs-alloc",
-                    "{what} owned={owned}: refs() {} -> {}", pre.refs, post.refs
+                    "C13",
+                    "refs-alloc",
+                    "{what} owned={owned}: refs() {} -> {}",
+                    pre.refs,
+                    post.refs
                 );
                 let id = self.fresh_id();
                 let expect = mem[off..off + cap].to_vec();
-                let mut h = H { obj: None, kind, ty, off, cap, boff, bcap, expect, embeds, via, detached: false, drop_id: None, zst_written: None, id };
+                let mut h = H {
+                    obj: None,
+                    kind,
+                    ty,
+                    off,
+                    cap,
+                    boff,
+                    bcap,
+                    expect,
+                    embeds,
+                    via,
+                    detached: false,
+                    drop_id: None,
+                    zst_written: None,
+                    id,
+                };
                 let mut obj = guard_obj.0.take().unwrap();
                 if t.needs_drop && kind == HKind::Typed {
                     obj.write(id);
@@ -1294,7 +1848,15 @@ impl<A: Flavor> World<A> {
         }
     }
 
-    fn policy_on_err(&mut self, pre: &Snap, need_min: u64, need_max: u64, what: &str, n: u32, e: &Error) -> R {
+    fn policy_on_err(
+        &mut self,
+        pre: &Snap,
+        need_min: u64,
+        need_max: u64,
+        what: &str,
+        n: u32,
+        e: &Error,
+    ) -> R {
         let _ = need_min;
         match self.freelist {
             1 => {
@@ -1319,9 +1881,23 @@ impl<A: Flavor> World<A> {
     }
 
     #[allow(clippy::too_many_arguments)]
-    fn policy_on_ok(&mut self, pre: &Snap, post: &Snap, need_min: u64, need_max: u64, what: &str, n: u32, boff: usize, acc_end: usize) -> R {
+    fn policy_on_ok(
+        &mut self,
+        pre: &Snap,
+        post: &Snap,
+        need_min: u64,
+        need_max: u64,
+        what: &str,
+        n: u32,
+        boff: usize,
+        acc_end: usize,
+    ) -> R {
         if self.freelist == 0 {
-            return Err(viol!("C10", "none-reused", "Freelist::None: {what}({n}) succeeded although fresh space cannot satisfy it"));
+            return Err(viol!(
+                "C10",
+                "none-reused",
+                "Freelist::None: {what}({n}) succeeded although fresh space cannot satisfy it"
+            ));
         }
         self.classes.insert("slow-path");
         if pre.fl.len() >= 3 {
@@ -1337,13 +1913,33 @@ impl<A: Flavor> World<A> {
             return Err(viol!("C10", "served-from-nowhere", "{what}({n}) succeeded without fresh space at buffer_offset {boff}, which is no free-list node: {:?}", pre.fl));
         };
         let sv = pre.fl[si];
-        ensure!(sv.1 as u64 >= need_min, "C10", "served-too-small", "{what}({n}) served from node {sv:?} smaller than the request ({need_min})");
+        ensure!(
+            sv.1 as u64 >= need_min,
+            "C10",
+            "served-too-small",
+            "{what}({n}) served from node {sv:?} smaller than the request ({need_min})"
+        );
         if self.freelist == 1 {
-            ensure!(si == 0, "C10", "optimistic-not-largest", "Optimistic: {what}({n}) served from node #{si} {sv:?}, not the largest {:?}", pre.fl[0]);
+            ensure!(
+                si == 0,
+                "C10",
+                "optimistic-not-largest",
+                "Optimistic: {what}({n}) served from node #{si} {sv:?}, not the largest {:?}",
+                pre.fl[0]
+            );
         } else {
             let first_fit_max = pre.fl.iter().position(|nd| nd.1 as u64 >= need_max);
-            let first_fit_min = pre.fl.iter().position(|nd| nd.1 as u64 >= need_min).unwrap();
-            ensure!(si >= first_fit_min, "C10", "pessimistic-not-smallest", "Pessimistic: {what}({n}) served from node #{si} {sv:?} before the first that fits");
+            let first_fit_min = pre
+                .fl
+                .iter()
+                .position(|nd| nd.1 as u64 >= need_min)
+                .unwrap();
+            ensure!(
+                si >= first_fit_min,
+                "C10",
+                "pessimistic-not-smallest",
+                "Pessimistic: {what}({n}) served from node #{si} {sv:?} before the first that fits"
+            );
             if let Some(f) = first_fit_max {
                 ensure!(si <= f, "C10", "pessimistic-not-smallest", "Pessimistic: {what}({n}) served from node #{si} {sv:?}, but node #{f} {:?} is the smallest that fits; list {:?}", pre.fl[f], pre.fl);
             }
@@ -1359,8 +1955,18 @@ impl<A: Flavor> World<A> {
         let new = key(&post.fl);
         let added: Vec<(u32, u32)> = new.iter().filter(|x| !old.contains(x)).copied().collect();
         let lost: Vec<(u32, u32)> = old.iter().filter(|x| !new.contains(x)).copied().collect();
-        ensure!(lost.is_empty(), "C10", "other-nodes-changed", "{what}({n}) from node {sv:?} also changed nodes {lost:?}");
-        ensure!(added.len() <= 1, "C10", "other-nodes-changed", "{what}({n}) from node {sv:?} added nodes {added:?}");
+        ensure!(
+            lost.is_empty(),
+            "C10",
+            "other-nodes-changed",
+            "{what}({n}) from node {sv:?} also changed nodes {lost:?}"
+        );
+        ensure!(
+            added.len() <= 1,
+            "C10",
+            "other-nodes-changed",
+            "{what}({n}) from node {sv:?} added nodes {added:?}"
+        );
         if let Some(r) = added.first() {
             let ext_end = sv.0 as usize + 8 + sv.1 as usize;
             ensure!(
@@ -1368,13 +1974,26 @@ impl<A: Flavor> World<A> {
                 "C10", "remainder-outside",
                 "remainder node {r:?} not inside the served segment after the handed-out part (served {sv:?}, handed-out end {acc_end})"
             );
-            ensure!(r.1 >= pre.minseg, "C10", "remainder-below-min", "remainder node {r:?} smaller than the minimum segment size {}", pre.minseg);
+            ensure!(
+                r.1 >= pre.minseg,
+                "C10",
+                "remainder-below-min",
+                "remainder node {r:?} smaller than the minimum segment size {}",
+                pre.minseg
+            );
         }
         Ok(())
     }
 
     /// Effect of releasing `[boff, boff+bcap)` exactly once (C13 a / C20).
-    fn check_release_effect(&mut self, pre: &Snap, post: &Snap, boff: usize, bcap: usize, what: &str) -> R {
+    fn check_release_effect(
+        &mut self,
+        pre: &Snap,
+        post: &Snap,
+        boff: usize,
+        bcap: usize,
+        what: &str,
+    ) -> R {
         if self.mode.lenient {
             return Ok(());
         }
@@ -1386,26 +2005,63 @@ impl<A: Flavor> World<A> {
         let (old, new) = (key(&pre.fl), key(&post.fl));
         let added: Vec<(u32, u32)> = new.iter().filter(|x| !old.contains(x)).copied().collect();
         let lost: Vec<(u32, u32)> = old.iter().filter(|x| !new.contains(x)).copied().collect();
-        ensure!(lost.is_empty(), "C13", "release-changed-other-nodes", "{what} of [{boff}, {}) removed/changed nodes {lost:?}", boff + bcap);
-        ensure!(post.discarded >= pre.discarded, "C20", "discarded-decreased", "{what}: discarded() {} -> {}", pre.discarded, post.discarded);
-        ensure!(post.capacity == pre.capacity && post.minseg == pre.minseg, "C13", "release-side-effect", "{what} changed capacity/min segment size");
+        ensure!(
+            lost.is_empty(),
+            "C13",
+            "release-changed-other-nodes",
+            "{what} of [{boff}, {}) removed/changed nodes {lost:?}",
+            boff + bcap
+        );
+        ensure!(
+            post.discarded >= pre.discarded,
+            "C20",
+            "discarded-decreased",
+            "{what}: discarded() {} -> {}",
+            pre.discarded,
+            post.discarded
+        );
+        ensure!(
+            post.capacity == pre.capacity && post.minseg == pre.minseg,
+            "C13",
+            "release-side-effect",
+            "{what} changed capacity/min segment size"
+        );
         if post.allocated != pre.allocated {
             // on-top release
             ensure!(
                 pre.allocated == boff + bcap && post.allocated == boff,
-                "C13", "release-cursor",
-                "{what} of [{boff}, {}) moved the cursor {} -> {}", boff + bcap, pre.allocated, post.allocated
+                "C13",
+                "release-cursor",
+                "{what} of [{boff}, {}) moved the cursor {} -> {}",
+                boff + bcap,
+                pre.allocated,
+                post.allocated
             );
-            ensure!(added.is_empty() && post.discarded == pre.discarded, "C13", "release-top-side-effect", "{what} on top also changed list/discarded: +{added:?} discarded {} -> {}", pre.discarded, post.discarded);
+            ensure!(
+                added.is_empty() && post.discarded == pre.discarded,
+                "C13",
+                "release-top-side-effect",
+                "{what} on top also changed list/discarded: +{added:?} discarded {} -> {}",
+                pre.discarded,
+                post.discarded
+            );
             self.classes.insert("release-top");
             return Ok(());
         }
         if self.freelist == 0 {
-            ensure!(added.is_empty(), "C10", "none-has-nodes", "Freelist::None release created a node {added:?}");
+            ensure!(
+                added.is_empty(),
+                "C10",
+                "none-has-nodes",
+                "Freelist::None release created a node {added:?}"
+            );
             ensure!(
                 post.discarded as u64 == (pre.discarded as u64 + bcap as u64).min(u32::MAX as u64),
-                "C13|C20", "none-release-accounting",
-                "Freelist::None: {what} of {bcap} bytes not on top: discarded() {} -> {}", pre.discarded, post.discarded
+                "C13|C20",
+                "none-release-accounting",
+                "Freelist::None: {what} of {bcap} bytes not on top: discarded() {} -> {}",
+                pre.discarded,
+                post.discarded
             );
             self.dead.push((boff, boff + bcap));
             self.classes.insert("release-discarded");
@@ -1425,12 +2081,23 @@ impl<A: Flavor> World<A> {
                 let r = added[0];
                 ensure!(
                     r.0 as usize >= boff && r.0 as usize + 8 + r.1 as usize <= boff + bcap,
-                    "C13", "release-extent",
-                    "{what} of [{boff}, {}) created node {r:?} with extent [{}, {}) outside it", boff + bcap, r.0, r.0 as usize + 8 + r.1 as usize
+                    "C13",
+                    "release-extent",
+                    "{what} of [{boff}, {}) created node {r:?} with extent [{}, {}) outside it",
+                    boff + bcap,
+                    r.0,
+                    r.0 as usize + 8 + r.1 as usize
                 );
                 self.classes.insert("release-segment");
             }
-            _ => return Err(viol!("C13", "release-many-nodes", "{what} of [{boff}, {}) created several nodes {added:?}", boff + bcap)),
+            _ => {
+                return Err(viol!(
+                    "C13",
+                    "release-many-nodes",
+                    "{what} of [{boff}, {}) created several nodes {added:?}",
+                    boff + bcap
+                ))
+            }
         }
         Ok(())
     }
@@ -1444,7 +2111,16 @@ impl<A: Flavor> World<A> {
         let o = self.opts.with_read(true).with_offset(off as u64);
         let a: A = unsafe { o.map::<A, _>(path) }.ok()?;
         let fl = a.fl();
-        let s = Snap { allocated: a.allocated(), discarded: a.discarded(), remaining: a.remaining(), capacity: a.capacity(), minseg: a.minimum_segment_size(), refs: 0, fl: fl.nodes, fl_complete: fl.complete };
+        let s = Snap {
+            allocated: a.allocated(),
+            discarded: a.discarded(),
+            remaining: a.remaining(),
+            capacity: a.capacity(),
+            minseg: a.minimum_segment_size(),
+            refs: 0,
+            fl: fl.nodes,
+            fl_complete: fl.complete,
+        };
         drop(a);
         // the throw-away arena's own release is not part of the case
         self.unmounts.set(seen);
@@ -1462,8 +2138,11 @@ impl<A: Flavor> World<A> {
         if self.mode.count_unmount {
             ensure!(
                 self.unmounts.get() == self.expected_unmounts,
-                "C13", "unmount-count",
-                "backing memory released {} times, expected {} after {when}", self.unmounts.get(), self.expected_unmounts
+                "C13",
+                "unmount-count",
+                "backing memory released {} times, expected {} after {when}",
+                self.unmounts.get(),
+                self.expected_unmounts
             );
         }
         Ok(())
@@ -1473,7 +2152,8 @@ impl<A: Flavor> World<A> {
         let pre = self.snap();
         let mut h = self.hs.remove(i);
         let obj = h.obj.take().unwrap();
-        let (boff, bcap, detached, embeds, drop_id) = (h.boff, h.bcap, h.detached, h.embeds, h.drop_id);
+        let (boff, bcap, detached, embeds, drop_id) =
+            (h.boff, h.bcap, h.detached, h.embeds, h.drop_id);
         let before = drop_id.map(drops_of).unwrap_or(0);
         if detached {
             // user's duty for a detached drop-type value
@@ -1484,9 +2164,21 @@ impl<A: Flavor> World<A> {
             let post = self.snap();
             let mut e = pre.clone();
             e.refs = pre.refs - embeds;
-            ensure!(post == e, "C13", "detached-drop-effect", "dropping a detached handle changed state {pre:?} -> {post:?}");
+            ensure!(
+                post == e,
+                "C13",
+                "detached-drop-effect",
+                "dropping a detached handle changed state {pre:?} -> {post:?}"
+            );
             if let Some(id) = drop_id {
-                ensure!(drops_of(id) == before2, "C13", "detached-drop-dropped-value", "detached handle dropped its value (drop count {} -> {})", before2, drops_of(id));
+                ensure!(
+                    drops_of(id) == before2,
+                    "C13",
+                    "detached-drop-dropped-value",
+                    "detached handle dropped its value (drop count {} -> {})",
+                    before2,
+                    drops_of(id)
+                );
             }
             // the range stays handed out (persistent)
             h.obj = None;
@@ -1502,9 +2194,22 @@ impl<A: Flavor> World<A> {
             ensure!(total == 1, "C13", "zst-value-drop-count", "a zero-sized drop value written into an owned handle was dropped {total} times by the time the handle was dropped");
             self.classes.insert("value-dropped-via-handle");
         }
-        ensure!(post.refs + embeds == pre.refs, "C13", "refs-handle-drop", "refs() {} -> {} after dropping a handle embedding {embeds} arena value(s)", pre.refs, post.refs);
+        ensure!(
+            post.refs + embeds == pre.refs,
+            "C13",
+            "refs-handle-drop",
+            "refs() {} -> {} after dropping a handle embedding {embeds} arena value(s)",
+            pre.refs,
+            post.refs
+        );
         if let Some(id) = drop_id {
-            ensure!(drops_of(id) == before + 1, "C13", "value-drop-count", "value of a dropped non-detached handle was dropped {} times", drops_of(id) - before);
+            ensure!(
+                drops_of(id) == before + 1,
+                "C13",
+                "value-drop-count",
+                "value of a dropped non-detached handle was dropped {} times",
+                drops_of(id) - before
+            );
             self.classes.insert("value-dropped-via-handle");
         }
         if h.cap > 0 || h.bcap > 0 {
@@ -1512,7 +2217,12 @@ impl<A: Flavor> World<A> {
         } else {
             let mut e = pre.clone();
             e.refs = post.refs;
-            ensure!(post == e, "C13", "zero-size-drop-effect", "dropping a zero-sized handle changed state");
+            ensure!(
+                post == e,
+                "C13",
+                "zero-size-drop-effect",
+                "dropping a zero-sized handle changed state"
+            );
         }
         if embeds > 0 && self.arenas[0].is_none() {
             self.classes.insert("owned-outlived-original");
@@ -1529,12 +2239,19 @@ impl<A: Flavor> World<A> {
             let mid = self.snap();
             let mut e = pre.clone();
             e.refs = pre.refs - h.embeds;
-            ensure!(mid == e, "C13", "detached-drop-effect", "dropping a detached handle changed state {pre:?} -> {mid:?}");
+            ensure!(
+                mid == e,
+                "C13",
+                "detached-drop-effect",
+                "dropping a detached handle changed state {pre:?} -> {mid:?}"
+            );
         }
         let pre = self.snap();
         let a = self.a();
         let (boff, bcap) = (h.boff, h.bcap);
-        guard("dealloc", "C13", || unsafe { a.dealloc(boff as u32, bcap as u32) })?;
+        guard("dealloc", "C13", || unsafe {
+            a.dealloc(boff as u32, bcap as u32)
+        })?;
         let post = self.snap();
         self.check_release_effect(&pre, &post, boff, bcap, "dealloc")?;
         self.classes.insert("explicit-dealloc");
@@ -1547,8 +2264,18 @@ impl<A: Flavor> World<A> {
         let r = guard("discard_freelist", "C20", || a.discard_freelist())?;
         let post = self.snap();
         if self.ro {
-            ensure!(matches!(r, Err(Error::ReadOnly)), "C20", "discard-ro", "discard_freelist on a read-only arena returned {r:?}");
-            ensure!(pre == post, "C20", "discard-ro", "discard_freelist on a read-only arena changed state");
+            ensure!(
+                matches!(r, Err(Error::ReadOnly)),
+                "C20",
+                "discard-ro",
+                "discard_freelist on a read-only arena returned {r:?}"
+            );
+            ensure!(
+                pre == post,
+                "C20",
+                "discard-ro",
+                "discard_freelist on a read-only arena changed state"
+            );
             return Ok("readonly".into());
         }
         let sum: u64 = pre.fl.iter().map(|n| n.1 as u64).sum();
@@ -1557,19 +2284,50 @@ impl<A: Flavor> World<A> {
         }
         match r {
             Ok(v) => {
-                ensure!(v as u64 == sum.min(u32::MAX as u64), "C20", "discard-return", "discard_freelist() returned {v}, list held {sum} bytes: {:?}", pre.fl);
-                ensure!(post.discarded as u64 == (pre.discarded as u64 + sum).min(u32::MAX as u64), "C20", "discard-accounting", "discard_freelist(): discarded() {} -> {}, list held {sum}", pre.discarded, post.discarded);
-                ensure!(post.fl.is_empty(), "C20", "discard-left-nodes", "discard_freelist() left nodes {:?}", post.fl);
-                ensure!(post.allocated == pre.allocated && post.capacity == pre.capacity && post.minseg == pre.minseg, "C20", "discard-side-effect", "discard_freelist() changed cursor/capacity/min segment size");
+                ensure!(
+                    v as u64 == sum.min(u32::MAX as u64),
+                    "C20",
+                    "discard-return",
+                    "discard_freelist() returned {v}, list held {sum} bytes: {:?}",
+                    pre.fl
+                );
+                ensure!(
+                    post.discarded as u64 == (pre.discarded as u64 + sum).min(u32::MAX as u64),
+                    "C20",
+                    "discard-accounting",
+                    "discard_freelist(): discarded() {} -> {}, list held {sum}",
+                    pre.discarded,
+                    post.discarded
+                );
+                ensure!(
+                    post.fl.is_empty(),
+                    "C20",
+                    "discard-left-nodes",
+                    "discard_freelist() left nodes {:?}",
+                    post.fl
+                );
+                ensure!(
+                    post.allocated == pre.allocated
+                        && post.capacity == pre.capacity
+                        && post.minseg == pre.minseg,
+                    "C20",
+                    "discard-side-effect",
+                    "discard_freelist() changed cursor/capacity/min segment size"
+                );
                 for n in &pre.fl {
-                    self.dead.push((n.0 as usize, n.0 as usize + 8 + n.1 as usize));
+                    self.dead
+                        .push((n.0 as usize, n.0 as usize + 8 + n.1 as usize));
                 }
                 if !pre.fl.is_empty() {
                     self.classes.insert("discard-nonempty");
                 }
                 Ok("ok".into())
             }
-            Err(e) => Err(viol!("C20", "discard-failed", "discard_freelist() on a writable arena failed: {e:?}")),
+            Err(e) => Err(viol!(
+                "C20",
+                "discard-failed",
+                "discard_freelist() on a writable arena failed: {e:?}"
+            )),
         }
     }
 
@@ -1630,7 +2388,13 @@ impl<A: Flavor> World<A> {
         self.forget_above(target)?;
         // (not while crash points are being recorded: a crash inside the round trip would persist the state of the open
         // known finding - segments above the stored cursor - which the C06 histories must not contain)
-        if !raw && !self.mode.crash && s0.fl.iter().any(|n| n.0 as usize + 8 + n.1 as usize > target) {
+        if !raw
+            && !self.mode.crash
+            && s0
+                .fl
+                .iter()
+                .any(|n| n.0 as usize + 8 + n.1 as usize > target)
+        {
             // "changes nothing else" with a non-empty free list above the target: before the list is discarded (which
             // the interpreter does so that nothing is ever allocated over a listed segment), rewind down and straight
             // back up - no allocation in between, so the stale state is never used - and require that each of the two
@@ -1643,12 +2407,24 @@ impl<A: Flavor> World<A> {
             e.remaining = pre.capacity - target;
             ensure!(mid.allocated == target, "C17", "rewind-target", "rewind({ap:?}) with allocated={} data_offset={d} capacity={}: cursor {} expected {target}", pre.allocated, pre.capacity, mid.allocated);
             ensure!(mid == e, "C17", "rewind-side-effect", "rewind({ap:?}) over free-list segments changed more than the cursor: {pre:?} -> {mid:?}");
-            guard("rewind", "C17", || unsafe { a.rewind(ArenaPosition::Start(pre.allocated as u32)) })?;
+            guard("rewind", "C17", || unsafe {
+                a.rewind(ArenaPosition::Start(pre.allocated as u32))
+            })?;
             let back = self.snap();
-            ensure!(back == pre, "C17", "rewind-side-effect", "rewind({ap:?}) and back to Start({}) is not the identity: {pre:?} -> {back:?}", pre.allocated);
+            ensure!(
+                back == pre,
+                "C17",
+                "rewind-side-effect",
+                "rewind({ap:?}) and back to Start({}) is not the identity: {pre:?} -> {back:?}",
+                pre.allocated
+            );
             self.classes.insert("rewind-round-trip-over-segments");
         }
-        if s0.fl.iter().any(|n| n.0 as usize + 8 + n.1 as usize > target) {
+        if s0
+            .fl
+            .iter()
+            .any(|n| n.0 as usize + 8 + n.1 as usize > target)
+        {
             if raw {
                 // the open known finding (DESIGN.md 11.2): whatever fails from here on in this history carries its signature
                 self.classes.insert("rewind-left-segments-above-cursor");
@@ -1669,7 +2445,12 @@ impl<A: Flavor> World<A> {
             "C17", "rewind-target",
             "rewind({ap:?}) with allocated={} data_offset={d} capacity={}: cursor {} expected {target}", pre.allocated, pre.capacity, post.allocated
         );
-        ensure!(post == e, "C17", "rewind-side-effect", "rewind({ap:?}) changed more than the cursor: {pre:?} -> {post:?}");
+        ensure!(
+            post == e,
+            "C17",
+            "rewind-side-effect",
+            "rewind({ap:?}) changed more than the cursor: {pre:?} -> {post:?}"
+        );
         if target < pre.allocated {
             self.classes.insert("rewind-down");
         } else if target > pre.allocated {
@@ -1688,9 +2469,16 @@ impl<A: Flavor> World<A> {
         let ap = self.to_position(pos, &pre);
         let a = self.a();
         let before = crate::runner::fnv(self.mem());
-        guard("rewind(read-only arena)", "C09|C17", || unsafe { a.rewind(ap) })?;
+        guard("rewind(read-only arena)", "C09|C17", || unsafe {
+            a.rewind(ap)
+        })?;
         let post = self.snap();
-        ensure!(post == pre && crate::runner::fnv(self.mem()) == before, "C09|C17", "rewind-read-only-changed", "rewind({ap:?}) on a read-only arena changed it: {pre:?} -> {post:?}");
+        ensure!(
+            post == pre && crate::runner::fnv(self.mem()) == before,
+            "C09|C17",
+            "rewind-read-only-changed",
+            "rewind({ap:?}) on a read-only arena changed it: {pre:?} -> {post:?}"
+        );
         self.classes.insert("rewind-on-read-only");
         Ok(())
     }
@@ -1701,16 +2489,50 @@ impl<A: Flavor> World<A> {
         let a = self.a();
         let pre = self.snap();
         let r = guard("clear", "C17", || unsafe { a.clear() })?;
-        ensure!(r.is_ok(), "C17", "clear-failed", "clear() on a writable arena failed: {r:?}");
+        ensure!(
+            r.is_ok(),
+            "C17",
+            "clear-failed",
+            "clear() on a writable arena failed: {r:?}"
+        );
         let post = self.snap();
         let d = a.data_offset();
-        ensure!(post.allocated == d, "C17", "clear-cursor", "after clear allocated()={} data_offset={d}", post.allocated);
-        ensure!(post.fl.is_empty(), "C17", "clear-freelist", "after clear the free list is {:?}", post.fl);
-        ensure!(post.discarded == 0, "C17", "clear-discarded", "after clear discarded()={}", post.discarded);
-        ensure!(post.minseg == pre.minseg && post.capacity == pre.capacity && post.refs == pre.refs, "C17", "clear-side-effect", "clear changed min segment size / capacity / refs: {pre:?} -> {post:?}");
+        ensure!(
+            post.allocated == d,
+            "C17",
+            "clear-cursor",
+            "after clear allocated()={} data_offset={d}",
+            post.allocated
+        );
+        ensure!(
+            post.fl.is_empty(),
+            "C17",
+            "clear-freelist",
+            "after clear the free list is {:?}",
+            post.fl
+        );
+        ensure!(
+            post.discarded == 0,
+            "C17",
+            "clear-discarded",
+            "after clear discarded()={}",
+            post.discarded
+        );
+        ensure!(
+            post.minseg == pre.minseg && post.capacity == pre.capacity && post.refs == pre.refs,
+            "C17",
+            "clear-side-effect",
+            "clear changed min segment size / capacity / refs: {pre:?} -> {post:?}"
+        );
         let mem = self.mem();
         if let Some(p) = mem[d..].iter().position(|b| *b != 0) {
-            return Err(viol!("C17", "clear-not-zeroed", "after clear byte {} of the data area is {:#x}", d + p, mem[d + p]));
+            return Err(viol!(
+                "C17",
+                "clear-not-zeroed",
+                "after clear byte {} of the data area is {:#x}",
+                d + p,
+                mem[d + p]
+            ));
         }
         self.dead.clear();
         self.high_water = d;
@@ -1763,8 +2585,18 @@ impl<A: Flavor> World<A> {
         let Some(r) = r else { return Ok("skip".into()) };
         let post = self.snap();
         if self.ro {
-            ensure!(r.is_err(), "C18", "truncate-ro", "truncate on a read-only arena succeeded");
-            ensure!(pre == post, "C18", "truncate-ro", "truncate on a read-only arena changed state");
+            ensure!(
+                r.is_err(),
+                "C18",
+                "truncate-ro",
+                "truncate on a read-only arena succeeded"
+            );
+            ensure!(
+                pre == post,
+                "C18",
+                "truncate-ro",
+                "truncate on a read-only arena changed state"
+            );
             return Ok("readonly".into());
         }
         if n.max(pre.allocated) > u32::MAX as usize {
@@ -1772,27 +2604,78 @@ impl<A: Flavor> World<A> {
             // demanded instead is the least any caller needs - a refusal that leaves the arena exactly as it was
             self.classes.insert("truncate-beyond-u32");
             ensure!(r.is_err(), "C18", "truncate-wrapped", "truncate({n}) on an arena of capacity {} returned Ok: capacity() is now {} (allocated() {})", pre.capacity, post.capacity, post.allocated);
-            ensure!(pre == post, "C18", "truncate-refused-effect", "truncate({n}) failed but changed state: {pre:?} -> {post:?}");
+            ensure!(
+                pre == post,
+                "C18",
+                "truncate-refused-effect",
+                "truncate({n}) failed but changed state: {pre:?} -> {post:?}"
+            );
             let after = &self.mem()[..post.allocated];
-            ensure!(after == &before[..], "C18", "truncate-bytes", "truncate({n}) failed but changed bytes below allocated()");
+            ensure!(
+                after == &before[..],
+                "C18",
+                "truncate-bytes",
+                "truncate({n}) failed but changed bytes below allocated()"
+            );
             return Ok("refused".into());
         }
-        ensure!(r.is_ok(), "C18", "truncate-failed", "truncate({n}) failed: {r:?}");
+        ensure!(
+            r.is_ok(),
+            "C18",
+            "truncate-failed",
+            "truncate({n}) failed: {r:?}"
+        );
         let want = n.max(pre.allocated);
-        ensure!(post.capacity == want, "C18", "truncate-capacity", "truncate({n}) with allocated {}: capacity() {} expected {want}", pre.allocated, post.capacity);
+        if post.capacity > want && post.allocated == pre.allocated {
+            // the arena reports more memory than truncate left it with: a request that fits the report but not the
+            // memory must still be answered safely (C04: "every arena state", "never reads or writes outside the
+            // arena"). The harness makes that one request itself, only in this situation.
+            let ask = (post.capacity - post.allocated) as u32;
+            let a = self.a();
+            let r = guard("alloc_bytes after truncate", "C04", || {
+                a.alloc_bytes(ask).map(|mut h| {
+                    let end = rarena_allocator::Buffer::offset(&h)
+                        + rarena_allocator::Buffer::capacity(&h);
+                    unsafe { rarena_allocator::Buffer::detach(&mut h) };
+                    end
+                })
+            })?;
+            if let Ok(end) = r {
+                ensure!(end <= want, "C04|C18", "alloc-beyond-truncated-memory", "truncate({n}) with allocated {} left {want} bytes of memory, capacity() says {}; alloc_bytes({ask}) then returned a range ending at {end}, outside the arena", pre.allocated, post.capacity);
+            }
+        }
+        ensure!(
+            post.capacity == want,
+            "C18",
+            "truncate-capacity",
+            "truncate({n}) with allocated {}: capacity() {} expected {want}",
+            pre.allocated,
+            post.capacity
+        );
         let mut e = pre.clone();
         e.capacity = want;
         e.remaining = want - pre.allocated;
         // what the statement lists first: allocated(), discarded(), the free list, every byte below allocated()
         ensure!(
             post.allocated == pre.allocated && post.discarded == pre.discarded && post.fl == pre.fl,
-            "C18", "truncate-side-effect",
+            "C18",
+            "truncate-side-effect",
             "truncate({n}) changed allocated() / discarded() / the free list: {pre:?} -> {post:?}"
         );
         let after = &self.mem()[..post.allocated];
-        ensure!(after == &before[..], "C18", "truncate-bytes", "truncate({n}) changed bytes below allocated()");
+        ensure!(
+            after == &before[..],
+            "C18",
+            "truncate-bytes",
+            "truncate({n}) changed bytes below allocated()"
+        );
         // "... and nothing else" (the property's title): the rest of the observation tuple
-        ensure!(post == e, "C18", "truncate-other-state", "truncate({n}) changed more than the capacity: {pre:?} -> {post:?}");
+        ensure!(
+            post == e,
+            "C18",
+            "truncate-other-state",
+            "truncate({n}) changed more than the capacity: {pre:?} -> {post:?}"
+        );
         self.truncated = true;
         self.dirtied.resize(want.min(DIRTIED_MAX), false);
         if n < pre.capacity {
@@ -1808,10 +2691,29 @@ impl<A: Flavor> World<A> {
 
     fn saved(&self) -> Saved {
         Saved {
-            ranges: self.hs.iter().map(|h| (h.kind, h.ty, h.off, h.cap, h.boff, h.bcap, h.expect.clone(), h.id)).collect(),
+            ranges: self
+                .hs
+                .iter()
+                .map(|h| {
+                    (
+                        h.kind,
+                        h.ty,
+                        h.off,
+                        h.cap,
+                        h.boff,
+                        h.bcap,
+                        h.expect.clone(),
+                        h.id,
+                    )
+                })
+                .collect(),
             dead: self.dead.clone(),
             high_water: self.high_water,
-            file: self.path.as_ref().map(|p| std::fs::read(p).unwrap_or_default()).unwrap_or_default(),
+            file: self
+                .path
+                .as_ref()
+                .map(|p| std::fs::read(p).unwrap_or_default())
+                .unwrap_or_default(),
             obs: self.snap(),
         }
     }
@@ -1848,8 +2750,32 @@ impl<A: Flavor> World<A> {
             Some(sv) => {
                 let now = std::fs::read(&path).unwrap_or_default();
                 let n = sv.file.len().min(now.len());
-                ensure!(now.len() >= sv.file.len() && now[..n] == sv.file[..n], "C05", "cow-leaked", "file contents changed during a map_copy session");
-                self.hs = sv.ranges.iter().map(|r| H { obj: None, kind: r.0, ty: r.1, off: r.2, cap: r.3, boff: r.4, bcap: r.5, expect: r.6.clone(), embeds: 0, via: 0, detached: true, drop_id: None, zst_written: None, id: r.7 }).collect();
+                ensure!(
+                    now.len() >= sv.file.len() && now[..n] == sv.file[..n],
+                    "C05",
+                    "cow-leaked",
+                    "file contents changed during a map_copy session"
+                );
+                self.hs = sv
+                    .ranges
+                    .iter()
+                    .map(|r| H {
+                        obj: None,
+                        kind: r.0,
+                        ty: r.1,
+                        off: r.2,
+                        cap: r.3,
+                        boff: r.4,
+                        bcap: r.5,
+                        expect: r.6.clone(),
+                        embeds: 0,
+                        via: 0,
+                        detached: true,
+                        drop_id: None,
+                        zst_written: None,
+                        id: r.7,
+                    })
+                    .collect();
                 self.dead = sv.dead.clone();
                 self.high_water = sv.high_water;
                 self.classes.insert("reopen-after-cow");
@@ -1869,8 +2795,13 @@ impl<A: Flavor> World<A> {
         // capsel 3 (only when the running check asks for it): a capacity below the cursor stored in the file but
         // large enough for the header - outside C05's domain; the open must be refused, or yield an arena whose cursor
         // lies inside its capacity (C15: allocated_memory() / the readers stay inside memory(); C16: remaining law)
-        let below = capsel == 3 && self.mode.below_cursor_reopen && file_state.allocated > pre_d + 1;
-        let below_cap = if below { pre_d + (self.opno * 13) % (file_state.allocated - pre_d) } else { 0 };
+        let below =
+            capsel == 3 && self.mode.below_cursor_reopen && file_state.allocated > pre_d + 1;
+        let below_cap = if below {
+            pre_d + (self.opno * 13) % (file_state.allocated - pre_d)
+        } else {
+            0
+        };
         let capsel = if capsel == 3 && !below { 0 } else { capsel };
         let o = match capsel {
             3 => o.with_capacity(below_cap as u32),
@@ -1879,7 +2810,11 @@ impl<A: Flavor> World<A> {
             _ => o,
         };
         let mode = mode & 3;
-        let o = if create && mode < 2 { o.with_create(true) } else { o };
+        let o = if create && mode < 2 {
+            o.with_create(true)
+        } else {
+            o
+        };
         if create && mode < 2 {
             self.classes.insert("reopen-with-create");
         }
@@ -1892,12 +2827,21 @@ impl<A: Flavor> World<A> {
         }
         let what = OPEN_NAMES[mode as usize + 4 * usize::from(pb)];
         let r = guard(what, "C05", || open_variant::<A>(o, mode, pb, &path))?;
-        let before_below = if below { std::fs::read(&path).ok() } else { None };
+        let before_below = if below {
+            std::fs::read(&path).ok()
+        } else {
+            None
+        };
         let mut accepted_below = false;
         let arena = match r {
             Ok(a) if below => {
                 // accepted: then the arena must be consistent
-                let (al, cp, am, dl) = (a.allocated(), a.capacity(), a.allocated_memory().len(), a.data().len());
+                let (al, cp, am, dl) = (
+                    a.allocated(),
+                    a.capacity(),
+                    a.allocated_memory().len(),
+                    a.data().len(),
+                );
                 if al > cp || am > cp || dl > cp {
                     std::mem::forget(a);
                     return Err(viol!("C15|C16", "reopen-cursor-beyond-capacity", "{what} with capacity {below_cap} below the stored cursor {} was accepted: allocated()={al} capacity()={cp} allocated_memory().len()={am} data().len()={dl} (the slices reach past memory())", file_state.allocated));
@@ -1913,41 +2857,111 @@ impl<A: Flavor> World<A> {
                 if let Some(b) = &before_below {
                     ensure!(now.len() >= b.len() && now[..b.len()] == b[..], "C09", "refused-open-altered-file", "{what} with capacity {below_cap} below the stored cursor was refused but changed the file");
                 }
-                let o2 = self.opts.with_read(true).with_offset(off as u64).with_capacity(base_cap as u32);
+                let o2 = self
+                    .opts
+                    .with_read(true)
+                    .with_offset(off as u64)
+                    .with_capacity(base_cap as u32);
                 let o2 = if mode >= 2 { ro_flags(o2, flags) } else { o2 };
                 match guard(what, "C05", || open_variant::<A>(o2, mode, pb, &path))? {
                     Ok(a) => a,
                     Err(e) => return Err(viol!("C05", "reopen-failed", "{what} of a valid arena file (len {file_len}, mapping offset {off}) failed: {e}")),
                 }
             }
-            Err(e) => return Err(viol!("C05", "reopen-failed", "{what} of a valid arena file (len {file_len}, mapping offset {off}) failed: {e}")),
+            Err(e) => return Err(viol!(
+                "C05",
+                "reopen-failed",
+                "{what} of a valid arena file (len {file_len}, mapping offset {off}) failed: {e}"
+            )),
         };
         let capsel = if below { 0 } else { capsel };
         self.arenas = vec![Some(Box::new(arena))];
         self.ro = mode >= 2;
         let a = self.a();
         let post = self.snap();
-        ensure!(post.allocated == file_state.allocated, "C05", "reopen-allocated", "{what}: allocated() {} before close, {} after reopen", file_state.allocated, post.allocated);
-        ensure!(post.discarded == file_state.discarded, "C05", "reopen-discarded", "{what}: discarded() {} before close, {} after reopen", file_state.discarded, post.discarded);
-        ensure!(post.minseg == file_state.minseg, "C05", "reopen-minseg", "{what}: minimum_segment_size() {} before close, {} after reopen", file_state.minseg, post.minseg);
-        ensure!(post.fl == file_state.fl, "C05", "reopen-freelist", "{what}: free list {:?} before close, {:?} after reopen", file_state.fl, post.fl);
+        ensure!(
+            post.allocated == file_state.allocated,
+            "C05",
+            "reopen-allocated",
+            "{what}: allocated() {} before close, {} after reopen",
+            file_state.allocated,
+            post.allocated
+        );
+        ensure!(
+            post.discarded == file_state.discarded,
+            "C05",
+            "reopen-discarded",
+            "{what}: discarded() {} before close, {} after reopen",
+            file_state.discarded,
+            post.discarded
+        );
+        ensure!(
+            post.minseg == file_state.minseg,
+            "C05",
+            "reopen-minseg",
+            "{what}: minimum_segment_size() {} before close, {} after reopen",
+            file_state.minseg,
+            post.minseg
+        );
+        ensure!(
+            post.fl == file_state.fl,
+            "C05",
+            "reopen-freelist",
+            "{what}: free list {:?} before close, {:?} after reopen",
+            file_state.fl,
+            post.fl
+        );
         let mem = self.mem();
         for (i, h) in self.hs.iter().enumerate() {
             if h.cap > 0 {
-                ensure!(h.off + h.cap <= mem.len() && mem[h.off..h.off + h.cap] == h.expect[..], "C05", "reopen-bytes", "{what}: bytes of handed-out range #{i} [{}, {}) differ after reopen", h.off, h.off + h.cap);
+                ensure!(
+                    h.off + h.cap <= mem.len() && mem[h.off..h.off + h.cap] == h.expect[..],
+                    "C05",
+                    "reopen-bytes",
+                    "{what}: bytes of handed-out range #{i} [{}, {}) differ after reopen",
+                    h.off,
+                    h.off + h.cap
+                );
             }
         }
-        ensure!(a.data_offset() == pre_d, "C05", "reopen-data-offset", "{what}: data_offset() {} before close, {} after reopen", pre_d, a.data_offset());
-        ensure!(a.magic_version() == pre_magic && a.version() == pre_version, "C05", "reopen-magic", "{what}: magic/version changed across reopen");
-        ensure!(a.reserved_slice() == &pre_reserved[..], "C05", "reopen-reserved", "{what}: reserved prefix differs after reopen");
-        ensure!(a.read_only() == self.ro, "C05", "reopen-ro-flag", "{what}: read_only()={}", a.read_only());
+        ensure!(
+            a.data_offset() == pre_d,
+            "C05",
+            "reopen-data-offset",
+            "{what}: data_offset() {} before close, {} after reopen",
+            pre_d,
+            a.data_offset()
+        );
+        ensure!(
+            a.magic_version() == pre_magic && a.version() == pre_version,
+            "C05",
+            "reopen-magic",
+            "{what}: magic/version changed across reopen"
+        );
+        ensure!(
+            a.reserved_slice() == &pre_reserved[..],
+            "C05",
+            "reopen-reserved",
+            "{what}: reserved prefix differs after reopen"
+        );
+        ensure!(
+            a.read_only() == self.ro,
+            "C05",
+            "reopen-ro-flag",
+            "{what}: read_only()={}",
+            a.read_only()
+        );
         let len_now = std::fs::metadata(&path).map(|m| m.len()).unwrap_or(0) as usize;
         let want_cap = match capsel % 3 {
             0 => base_cap,
             1 => larger,
             _ => file_len - off,
         };
-        let want_cap = if self.ro { want_cap.min(file_len - off) } else { want_cap };
+        let want_cap = if self.ro {
+            want_cap.min(file_len - off)
+        } else {
+            want_cap
+        };
         ensure!(accepted_below || post.capacity == want_cap, "C05|C16", "reopen-capacity", "{what} capsel {capsel}: capacity() {} expected {want_cap} (file len {file_len} -> {len_now}, offset {off})", post.capacity);
         if self.dirtied.len() < post.capacity.min(DIRTIED_MAX) {
             self.dirtied.resize(post.capacity.min(DIRTIED_MAX), false);
@@ -1957,7 +2971,14 @@ impl<A: Flavor> World<A> {
             sv.obs = post.clone();
             self.cow = Some(sv);
         }
-        self.classes.insert(["reopen-map_mut", "reopen-map_copy", "reopen-map", "reopen-map_copy_ro"][mode as usize]);
+        self.classes.insert(
+            [
+                "reopen-map_mut",
+                "reopen-map_copy",
+                "reopen-map",
+                "reopen-map_copy_ro",
+            ][mode as usize],
+        );
         // C13: "a file marked remove-on-drop disappears exactly then" - also when the mark is set on an arena that was
         // opened (writable, copy-on-write or read-only: the docs say the file goes even then) rather than created
         if self.mode.count_unmount && self.cfg.magic % 4 == 3 && !self.remove_on_drop {
@@ -1967,7 +2988,10 @@ impl<A: Flavor> World<A> {
             self.classes.insert("remove-on-drop");
             self.classes.insert("remove-on-drop-set-after-reopen");
         }
-        if !file_state.fl.is_empty() && self.hs.iter().any(|h| h.cap > 0) && file_state.discarded > 0 {
+        if !file_state.fl.is_empty()
+            && self.hs.iter().any(|h| h.cap > 0)
+            && file_state.discarded > 0
+        {
             self.classes.insert("reopen-rich");
         }
         Ok(())
@@ -1979,10 +3003,18 @@ impl<A: Flavor> World<A> {
         if order == 1 {
             // arena values without borrowers first (original first), then handles in reverse
             let ixs = self.live_arena_ixs();
-            let total_holders = ixs.len() + self.hs.iter().filter(|h| h.obj.is_some() && h.embeds > 0).count();
+            let total_holders = ixs.len()
+                + self
+                    .hs
+                    .iter()
+                    .filter(|h| h.obj.is_some() && h.embeds > 0)
+                    .count();
             let mut holders = total_holders;
             for ix in ixs {
-                let borrowed = self.hs.iter().any(|h| h.obj.is_some() && h.embeds == 0 && h.via == ix);
+                let borrowed = self
+                    .hs
+                    .iter()
+                    .any(|h| h.obj.is_some() && h.embeds == 0 && h.via == ix);
                 if !borrowed && holders > 1 {
                     let b = self.arenas[ix].take().unwrap();
                     guard("Arena::drop", "C13", move || drop(b))?;
@@ -2024,7 +3056,13 @@ impl<A: Flavor> World<A> {
                 if holders == 1 {
                     self.expected_unmounts += 1;
                     self.classes.insert("owned-handle-was-last");
-                    if !det && bcap > 0 && !self.ro && self.cow.is_none() && !self.remove_on_drop && self.cfg.backend == Backend::File {
+                    if !det
+                        && bcap > 0
+                        && !self.ro
+                        && self.cow.is_none()
+                        && !self.remove_on_drop
+                        && self.cfg.backend == Backend::File
+                    {
                         persisted = self.file_snap();
                     }
                 }
@@ -2038,12 +3076,22 @@ impl<A: Flavor> World<A> {
             if let Some(pre) = persisted {
                 if let Some(post) = self.file_snap() {
                     self.classes.insert("last-holder-release-checked-in-file");
-                    self.check_release_effect(&pre, &post, boff, bcap, "drop of the last holder (an owned handle), as persisted in the file")?;
+                    self.check_release_effect(
+                        &pre,
+                        &post,
+                        boff,
+                        bcap,
+                        "drop of the last holder (an owned handle), as persisted in the file",
+                    )?;
                 }
             }
         }
         let ixs = self.live_arena_ixs();
-        let ixs: Vec<usize> = if order == 2 { ixs.into_iter().rev().collect() } else { ixs };
+        let ixs: Vec<usize> = if order == 2 {
+            ixs.into_iter().rev().collect()
+        } else {
+            ixs
+        };
         for ix in ixs {
             let b = self.arenas[ix].take().unwrap();
             if holders == 1 {
@@ -2096,39 +3144,85 @@ pub fn run_history<A: Flavor>(cfg: &Cfg, ops: &[Op], mode: Mode) -> RunOut {
     let want_mem = mode.trace;
     let mut w = match World::<A>::new(cfg, mode) {
         Ok(Some(w)) => w,
-        Ok(None) => return RunOut { classes: BTreeSet::new(), trace: vec![], mem: vec![], viol: None, foreign: None },
+        Ok(None) => {
+            return RunOut {
+                classes: BTreeSet::new(),
+                trace: vec![],
+                mem: vec![],
+                viol: None,
+                foreign: None,
+            }
+        }
         Err(v) => {
             verif::set_hook(None);
-            return RunOut { classes: BTreeSet::new(), trace: vec![], mem: vec![], viol: Some(v), foreign: take_foreign() };
+            return RunOut {
+                classes: BTreeSet::new(),
+                trace: vec![],
+                mem: vec![],
+                viol: Some(v),
+                foreign: take_foreign(),
+            };
         }
     };
     let s0 = w.snap();
     if let Err(v) = w.check_invariants(&s0) {
         let (classes, trace) = (w.classes.clone(), std::mem::take(&mut w.trace));
         w.leak();
-        return RunOut { classes, trace, mem: vec![], viol: Some(v), foreign: take_foreign() };
+        return RunOut {
+            classes,
+            trace,
+            mem: vec![],
+            viol: Some(v),
+            foreign: take_foreign(),
+        };
     }
     for (i, op) in ops.iter().enumerate() {
         if let Err(v) = w.step(i, op) {
             let mut v = v;
-            if OWNER.with(|o| o.get()) == Some("C16") && !owns(v.prop, "C16") && v.sig != "infra" && !v.sig.starts_with("budget") {
+            if OWNER.with(|o| o.get()) == Some("C16")
+                && !owns(v.prop, "C16")
+                && v.sig != "infra"
+                && !v.sig.starts_with("budget")
+            {
                 if let Err(v2) = w.reserved_epilogue() {
-                    v = Viol { prop: v2.prop, sig: v2.sig.clone(), msg: format!("{} [after {}:{} {}]", v2.msg, v.prop, v.sig, v.msg) };
+                    v = Viol {
+                        prop: v2.prop,
+                        sig: v2.sig.clone(),
+                        msg: format!("{} [after {}:{} {}]", v2.msg, v.prop, v.sig, v.msg),
+                    };
                 }
             }
             let (classes, trace) = (w.classes.clone(), std::mem::take(&mut w.trace));
             w.leak();
-            return RunOut { classes, trace, mem: vec![], viol: Some(v), foreign: take_foreign() };
+            return RunOut {
+                classes,
+                trace,
+                mem: vec![],
+                viol: Some(v),
+                foreign: take_foreign(),
+            };
         }
     }
     let trace = std::mem::take(&mut w.trace);
     let mem = if want_mem { w.mem_comparable() } else { vec![] };
     let classes_before = w.classes.clone();
     match w.teardown() {
-        Ok(classes) => RunOut { classes, trace, mem, viol: None, foreign: take_foreign() },
+        Ok(classes) => RunOut {
+            classes,
+            trace,
+            mem,
+            viol: None,
+            foreign: take_foreign(),
+        },
         Err(v) => {
             verif::set_hook(None);
-            RunOut { classes: classes_before, trace, mem, viol: Some(v), foreign: take_foreign() }
+            RunOut {
+                classes: classes_before,
+                trace,
+                mem,
+                viol: Some(v),
+                foreign: take_foreign(),
+            }
         }
     }
 }
